@@ -2,5 +2,6 @@
 from contracts.C04_field_validate import ArrayValidate, IndexValidate
 from contracts.C11_drop_invalid_rows import PandasDropInvalidRows, PolarsDropInvalidRows
 from contracts.C03_polars_container_validate import PolarsContainerValidate
+from contracts.C04_polars_column_validate import PolarsColumnValidate
 
-CONTRACTS = [ArrayValidate, IndexValidate, PandasDropInvalidRows, PolarsDropInvalidRows]  # PolarsContainerValidate: own file (C03_polars_container_validate.py)
+CONTRACTS = [ArrayValidate, IndexValidate, PandasDropInvalidRows, PolarsDropInvalidRows, PolarsColumnValidate]  # PolarsContainerValidate: own file (C03_polars_container_validate.py)
